@@ -25,7 +25,7 @@ from typing import Any, Dict, List, Tuple
 
 from .. import tlc
 from ..common import Ctx, MachineryError, rng, scratch_dir
-from ..values import ALL_TYPES, FLOAT_TYPES, NAN, NULL, conc, concretisable, same
+from ..values import ALL_TYPES, FLOAT_DECIMALS, FLOAT_TYPES, NAN, NULL, conc, concretisable, same
 
 LEVEL = "model_checking"
 
@@ -138,6 +138,11 @@ def _direct(ctx: Ctx, cases: List[Dict[str, Any]], type_list: List[str]) -> Tupl
     return n, drift
 
 
+from ..values import TYPE_VALUES as _TV
+
+_F32_VALUES = _TV["float"]
+
+
 def _e2e(ctx: Ctx, cases: List[Dict[str, Any]], type_list: List[str], max_filters: int, seed: int) -> int:
     """Real tables: every distinct abstract file becomes one appended data file; each filter is
     scanned with pruning and with pruning replaced by the identity function."""
@@ -216,6 +221,40 @@ def _e2e(ctx: Ctx, cases: List[Dict[str, Any]], type_list: List[str], max_filter
                                   f"scan(filter={fd!r}) on a {t} column returns {len(got_p)} rows with pruning and {len(got_u)} without; "
                                   f"lost row ids {missing[:5]} (file {fk0})",
                                   {"mode": "e2e", "type": t, "filter": repr(fd), "with_pruning": got_p, "without": got_u})
+                if t == "float":
+                    # the same filter with the literals written as the DECIMALS a user would type (0.1, not f32(0.1)):
+                    # as doubles they differ from every stored float32, and the engine's own treatment of them differs
+                    # per operator (comparisons promote to double, is_in casts the set to float32) - whatever the
+                    # engine answers, pruning must not change it.  No reference oracle here: pruned vs. unpruned only.
+                    def dec(v: Any) -> Any:
+                        if isinstance(v, float) and v == v:
+                            for i_, x_ in enumerate(_F32_VALUES):
+                                if x_ == v:
+                                    return FLOAT_DECIMALS[i_]
+                        return v
+
+                    fd2 = {c_: ((o_[0], [dec(x) for x in o_[1]]) if o_[0] in ("in", "not_in") else
+                                (o_[0], tuple(dec(x) for x in o_[1])) if o_[0] == "between" else (o_[0], dec(o_[1])))
+                           for c_, o_ in fd.items()}
+                    if repr(fd2) != repr(fd):
+                        filters_mod.prune_files_by_bounds = real_prune
+                        got_p2 = sorted(x["rid"] for x in tbl.scan(filter=fd2, verify_checksums=False))
+                        filters_mod.prune_files_by_bounds = lambda data_files, expressions, schema: data_files
+                        try:
+                            got_u2 = sorted(x["rid"] for x in tbl.scan(filter=fd2, verify_checksums=False))
+                        finally:
+                            filters_mod.prune_files_by_bounds = real_prune
+                        total += 1
+                        ctx.count_case(("e2e-decimal", t, fkey), nontrivial=True)
+                        if got_p2 != got_u2:
+                            missing = sorted(set(got_u2) - set(got_p2))
+                            ops = "+".join(e["op"] for e in case["exprs"])
+                            ctx.violation(f"prune-unsound:{ops}:decimal-literal:float32",
+                                          f"scan(filter={fd2!r}) on a float (32-bit) column returns {len(got_p2)} rows with pruning and {len(got_u2)} without; "
+                                          f"lost row ids {missing[:5]}",
+                                          {"mode": "e2e-decimal", "type": t, "filter": repr(fd2), "with_pruning": got_p2, "without": got_u2})
+                if got_p != got_u:
+                    pass
                 elif got_u != expect:
                     # the unpruned engine disagrees with the reference semantics: that is C12's subject;
                     # C13 only requires pruned == unpruned.  Recorded as a note in the evidence.
@@ -251,7 +290,7 @@ def run(ctx: Ctx) -> None:
     n, drift = _direct(ctx, cases, types)
     ctx.cov["direct_decisions"] = n
     ctx.cov["model_drift_notes"] = drift
-    e2e_types = ["double", "long", "string"] if quick else ALL_TYPES
+    e2e_types = ["double", "float", "long", "string"] if quick else ALL_TYPES
     n2 = _e2e(ctx, cases, e2e_types, max_filters=25 if quick else 10 ** 6, seed=ctx.seed)
     ctx.cov["e2e_scans_compared"] = n2
     ctx.count_traces(n + n2)
